@@ -113,7 +113,7 @@ func runC20(ctx *Ctx) {
 		}
 		r.Sample("threads: UE0 NEA1(5 octets) || UE1 NIA1(9 octets): every interleaving at the 90+ yield points with <=2 preemptions; outputs must equal the sequential ones")
 		r.Rule = fmt.Sprintf("cooperative scheduler (one goroutine runs at a time; scheduling points = every statement that reads or writes a package-level variable mutated at run time anywhere in the instrumented packages [found by AST analysis of the current tree, listed under mutated_package_level_variables; the first %d dynamic instances of each such statement per thread], scheduler-aware mutex operations, thread start/end): for %d unordered pairs of %d operation kinds (28 single operations and 14 two-operation sequences performed by one thread, each sequence against itself) (each thread on its own UE context, keys and messages; quick: every operation against itself, every pair inside a family of operations sharing code, every pair involving a codec; thorough: all pairs)%s every schedule with <=%d preemptions (one less for groups containing a composite NASEncode/NASDecode operation and, in quick, for pairs across families); "+
-			"oracle: every thread's outputs == the outputs of the same operation run alone (and == the independent references for NEA1/NIA1); deadlock = violation; plus cold start: every single operation against itself and four pairs of primitives sharing tables, every schedule with <=1 (thorough 2) preemptions, ONE execution per fresh process (lazily built state is built by the two threads' own first calls), same oracle; plus a separate free-running pass of the same bodies and of four long-message operations (9000 octets; the scheduler takes those in thorough only, against themselves with one preemption) built with -race (G in {2,8,64} goroutines, 200 rounds): any data race report is a violation; distinct = (group, schedule); non-trivial = schedules with at least one preemption",
+			"oracle: every thread's outputs == the outputs of the same operation run alone (and == the independent references for NEA1/NIA1); deadlock = violation; plus cold start: every single operation against itself and four pairs of primitives sharing tables, every schedule with <=1 (thorough 2) preemptions, ONE execution per fresh process (lazily built state is built by the two threads' own first calls), same oracle; plus, built with -race, one cold pass per operation (a fresh process whose first use of the library is that operation on 8 goroutines at once) and a separate free-running pass of the same bodies and of four long-message operations (9000 octets; the scheduler takes those in thorough only, against themselves with one preemption) built with -race (G in {2,8,64} goroutines, 200 rounds): any data race report is a violation; distinct = (group, schedule); non-trivial = schedules with at least one preemption",
 			vsched.MaxPerSite, npairs, len(ops), map[bool]string{true: " and 9 triples", false: ""}[ctx.Thorough], bound)
 		r.Assume("only sequentially consistent interleavings at the inserted yield points are explored; unsynchronised accesses elsewhere are the business of the free-running -race pass (a dynamic detector, not an enumeration)",
 			"switches at a thread's end count as deviations in the explorer (exact for 2 threads, a slightly smaller space than the true preemption bound for 3)")
@@ -367,4 +367,48 @@ func c20race(ctx *Ctx) {
 		}
 		r.Set(fmt.Sprintf("race_pass_G%d_reports", g), len(reports))
 	}
+	// cold passes: one fresh process per operation, whose very first use of the library is that operation on 8 goroutines
+	// at once (what is built lazily is built while eight callers need it; an unsynchronised access there is reported by the
+	// detector whatever the timing, because nothing orders the goroutines)
+	coldReports := 0
+	for op := 0; op < C20OpCount(); op++ {
+		if C20IsSequence(op) {
+			continue
+		}
+		cctx, cancel := context.WithTimeout(context.Background(), 15*time.Minute)
+		cmd := exec.CommandContext(cctx, bin, "-g", "8", "-coldop", fmt.Sprint(op))
+		cmd.WaitDelay = 5 * time.Second
+		cmd.Env = append(os.Environ(), "GORACE=halt_on_error=0")
+		cmd.Dir = report.BuildDir
+		out, err := cmd.CombinedOutput()
+		hung := cctx.Err() != nil
+		cancel()
+		cs := fmt.Sprintf("cold pass: operation %d on 8 goroutines as the first use of the library in a fresh process", op)
+		if hung {
+			r.Violate("free-running/does-not-terminate", cs, tail(string(out), 800), nil)
+			continue
+		}
+		seen := map[string]bool{}
+		for _, rep := range raceRe.FindAllString(string(out), -1) {
+			coldReports++
+			fr := frameRe.FindAllStringSubmatch(rep, -1)
+			key := "?"
+			if len(fr) > 0 {
+				key = fr[0][1]
+			}
+			if !seen[key] {
+				seen[key] = true
+				r.Violate("race/"+key, cs, trunc(rep, 1500), nil)
+			}
+		}
+		if m := regexp.MustCompile(`MISMATCH[^\n]*`).FindString(string(out)); m != "" {
+			r.Violate("free-running/result-differs-from-sequential", cs, m, nil)
+		} else if strings.Contains(string(out), "fatal error:") {
+			r.Violate("free-running/fatal-error", cs, tail(string(out), 800), nil)
+		} else if err != nil && len(raceRe.FindAllString(string(out), -1)) == 0 {
+			r.HarnessError(fmt.Sprintf("cold pass %d failed: %v: %s", op, err, tail(string(out), 500)))
+		}
+	}
+	r.Set("cold_passes", C20OpCount())
+	r.Set("cold_pass_race_reports", coldReports)
 }
